@@ -11,7 +11,7 @@ LEVEL = 'fault_enumeration'
 SLACK = 0.020
 RULE = ('shapes = {BAM, RTS/CTS} x {J1939-21, J1939-22} x sizes giving P packets x windows {1,2,3,all} (P in {2,3,4,5,8,12} quick, 2..12 thorough, last packet full / partly filled); per '
         'shape one fault-free run fixes the number F of bus frames, then EVERY k in 1..F with (i) frame k lost, (ii) originator silent from its '
-        'k-th frame on, (iii) responder silent from its k-th frame on (exhaustive over k), plus configuration variants (asymmetric windows, configured packet intervals) and, in the thorough tier, two more latency assignments per shape and 15-25 sampled double losses per shape; each followed after the quiet point by a fresh transfer '
+        'k-th frame on, (iii) responder silent from its k-th frame on (exhaustive over k), plus configuration variants (asymmetric windows, configured packet intervals, an unrelated periodic application timer firing while the session waits) and, in the thorough tier, two more latency assignments per shape and 15-25 sampled double losses per shape; each followed after the quiet point by a fresh transfer '
         'on the same pair; oracle = payload exact or nothing, session-table entry gone <= 1.25 s (3 s: FD originator waiting for the EOM ack) + 20 ms '
         'after the node\'s last session activity, abort frame present when an originator stopped waiting for CTS or a connection-mode responder '
         'stopped waiting for data, follow-up accepted and intact; a case = one (shape, fault kind) with all its k; non-trivial = >=1 faulted run '
@@ -61,6 +61,10 @@ def cases(tier, seed):
                 out.append(dict(layer=layer, mode='cmdt', size=size, w=255, dt_interval=0.005, fault=fault, seed=seed * 7919 + len(out)))
                 if fault != 'sil_resp':
                     out.append(dict(layer=layer, mode='bam', size=size, w=1, bam_interval=0.1, fault=fault, seed=seed * 7919 + len(out)))
+                # an unrelated periodic application timer on both ECUs that fires while the session is waiting for its time-out
+                out.append(dict(layer=layer, mode='cmdt', size=size, w=1, bg_timer=0.9, fault=fault, seed=seed * 7919 + len(out)))
+                if fault != 'sil_resp':
+                    out.append(dict(layer=layer, mode='bam', size=size, w=1, bg_timer=0.6, fault=fault, seed=seed * 7919 + len(out)))
     return out
 
 
@@ -82,6 +86,9 @@ def one_run(case, k, seed):
     cb = W.ca(B, 0x20, identity_number=2)
     W.listen_ca(ca, 'A')
     W.listen_ca(cb, 'B')
+    if case.get('bg_timer'):
+        A.ecu.add_timer(case['bg_timer'], lambda c: True)
+        B.ecu.add_timer(case['bg_timer'] * 1.07, lambda c: True)
     tabs = {'A': observe_tables(A, sim), 'B': observe_tables(B, sim)}
     W.run(0.01)
     if k:
@@ -157,7 +164,7 @@ def run_case(case):
         r['W'].close()
     sample = dict(case=case, fault_points=F, baseline_frames=[f.brief() for f in base['frames'][:min(base['n1'], 10)]],
                   abort_reasons_seen=sorted(reasons))
-    return dict(violations=list(viol), inconclusive=None if F > 0 else 'baseline run produced no frames', sig=repr((layer, mode, size, w, case.get('wb'), case.get('dt_interval'), case.get('bam_interval'), case.get('lat_seed'), fault)),
+    return dict(violations=list(viol), inconclusive=None if F > 0 else 'baseline run produced no frames', sig=repr((layer, mode, size, w, case.get('wb'), case.get('dt_interval'), case.get('bam_interval'), case.get('lat_seed'), case.get('bg_timer'), fault)),
                 nontrivial=obs['effective_faults'] > 0, obs=obs, sample=sample)
 
 
